@@ -422,6 +422,15 @@ func (c *Ctx) fail(site, aspect, detail string, sample interface{}, drift bool) 
 
 func (c *Ctx) Abort() { c.w.Flush(); c.out.Close() }
 
+// StopAfterHang ends the driver in good order after a call into the library did not return: the runaway goroutine cannot be
+// stopped and may consume memory without bound, which would turn a verdict (the failure just recorded) into a killed process.
+// The results written so far, including that failure, are flushed with a summary and the process exits normally.
+func (c *Ctx) StopAfterHang() {
+	c.Set("stopped_after_hang", true)
+	c.Close()
+	os.Exit(0)
+}
+
 func (c *Ctx) Close() error {
 	c.mu.Lock()
 	defer c.mu.Unlock()
